@@ -521,7 +521,7 @@ def run(tier: str, only=None) -> core.Result:
         {"input": build_input(ms.index("notifications/cancelled"), 0, 0), "behaviour": BEHAVIOURS[0][0]},
         {"input": build_input(ms.index("tools/call"), 1, 9), "behaviour": BEHAVIOURS[6][0]},
         {"input": build_input(ms.index("resources/read"), 9, len(PARAMS) - 12), "behaviour": BEHAVIOURS[4][0]},
-    ] + res.coverage.get("samples", [])[:2]
+    ]
     res.coverage["rule"] = (
         "full product of methods (every MessageMethod value found by introspection, two register_method names, "
         "unknown strings incl. Unicode, 300 chars, NUL, empty) x ids (absent, 17 int/str boundary ids, 6 non-ids) x "
